@@ -32,6 +32,8 @@
 (*                      by this copy lacks a (selected, hosted) child      *)
 (*  C04:tag-other       the requested tag resolves to something that is    *)
 (*                      neither its old value nor the source digest        *)
+(*  C04:tag-dangling    the requested tag was moved to a manifest that is  *)
+(*                      not (yet) there                                    *)
 (*  C04:write-after-tag content is written after the requested tag         *)
 (*                      (so a failure before that final write leaves the   *)
 (*                      tag as it was: the tag only ever changes through   *)
@@ -175,6 +177,7 @@ First(checks) ==
 StoreChecks(st, w, contentWrite) ==
   << <<"C04", \E m \in w : ~(KidsQ(m) \subseteq Present(st)), "C04:child-missing">>,
      <<"C04", Tagged /\ TagOf(st, "T") \notin {TagOf(init0, "T"), Root}, "C04:tag-other">>,
+     <<"C04", Moved(st) /\ TagOf(st, "T") \notin st.m, "C04:tag-dangling">>,
      <<"C04", tagMoved /\ contentWrite, "C04:write-after-tag">> >>
 
 \* ------------------------------------------------------------- actions
